@@ -678,6 +678,7 @@ def run(rep):
     r02j(rep, F)
     from rules import c01
     c01.r01w(rep, F, rule='R02k', pat=('/control/planners/',), frozen=6)
+    c01.r01A(rep, F, rule='R02n', pat='/control/planners/sst/')
     # R02m: stored controls stay replayable -- control::PlannerData::decoupleFromPlanner clones every edge control on every call (C09's R09n,
     # control clause, under C02's id)
     from rules import c09
